@@ -53,8 +53,10 @@ def directed_runs(tt):
     return out
 
 
-def table_case(runner, r, oc, reqs, pend, nruns, big=False):
+def table_case(runner, r, oc, reqs, pend, nruns, big=False, state_name=None):
     model = genlib.rand_sm_model(r, "py", big)
+    if state_name:
+        model = genlib.with_state_named(model, state_name)      # every run asks Is<State>() of every such adjective once
     model["iface"]["usertags"] = {"StateMachineThread": 0}
     tt = smparse.norm_tt(model["tt"])
     states, guards, actions, events = [], [], [], []
@@ -162,7 +164,7 @@ def run(tier):
     runner = genlib.Runner()
     reqs, pend = [], []
     for i in range(300 if thorough else 40):
-        table_case(runner, r, oc, reqs, pend, 12 if thorough else 6, big=thorough)
+        table_case(runner, r, oc, reqs, pend, 12 if thorough else 6, big=thorough, state_name=genlib.ADJECTIVES[i] if i < len(genlib.ADJECTIVES) else None)
         if oc.violations:
             break
     settle(oc, reqs, pend)
